@@ -14,6 +14,17 @@ from .. import common as C
 PID = "C20"
 
 
+def dec(name):
+    """spec name -> file name (non-ASCII characters are percent-encoded in the specification)"""
+    from urllib.parse import unquote
+    return unquote(name)
+
+
+def enc(name):
+    from urllib.parse import quote
+    return "".join(ch if ord(ch) < 128 else quote(ch) for ch in name)
+
+
 def materialise(root, entries):
     d = root / "DIR"
     t = root / "targets"
@@ -22,7 +33,7 @@ def materialise(root, entries):
     (t / "tdir" / "inner.mmm").write_text("inner")
     d.mkdir()
     for e in sorted(entries, key=lambda e: len(e["path"])):
-        p = d.joinpath(*e["path"])
+        p = d.joinpath(*[dec(x) for x in e["path"]])
         up = "../" * len(e["path"])
         k = e["kind"]
         if k == "file":
@@ -48,7 +59,7 @@ def snapshot(root):
         nonlocal contents_ok
         for name in sorted(os.listdir(cur)):
             p = cur / name
-            r = rel + [name]
+            r = rel + [enc(name)]
             if p.is_symlink():
                 tgt = os.readlink(p)
                 kind = "lnfile" if tgt.endswith("tfile") else "lndir" if tgt.endswith("tdir") else "lndangling"
